@@ -16,7 +16,7 @@ func init() {
 		Run:       checkC06,
 		Technique: "static analysis: edge-guard reachability and must-pass on the CFG of the logging copy loop, SSA value identity between the Read result and the Write operand, endpoint-role propagation through call sites and closure bindings, ownership (acquire->Close on all exits), channel send/receive census (go/ssa)",
 		Explanation: "Decides, for every path of the code, the structural necessary conditions of the TCP relay: " +
-			"R1 in the logging copy loop (resolved by role: the core/server function that calls Read, Write and a func(uint) bool parameter) no path leads from a Read to a Write without crossing the true-edge of the log callback invoked with that Read's byte count, and nothing is written (nor the loop continued) on a path that left the callback without its true-edge; " +
+			"R1 in the logging copy loop (resolved by role: the core/server function that calls Read, Write and a func(uint) bool parameter; the callback and the Write may live in a chunk helper the loop hands buf[0:nr] and the callback to, which is then decided on its own CFG together with the hand-over and the veto signal it returns) no path leads from a Read to a Write without crossing the true-edge of the log callback invoked with that Read's byte count, and nothing is written (nor the loop continued) on a path that left the callback without its true-edge; " +
 			"R2 the Write operand is buf[0:nr] with buf the slice handed to that Read and nr its result, the buffer is not stored into between the two, a chunk with nr>0 is either vetoed or written before the loop reads again or returns (no tail drop when Read returns data together with an error), and is written at most once; " +
 			"R3 the callback of the copy whose source is the outbound connection reports LogTraffic(id,0,n), the one whose source is the client stream LogTraffic(id,n,0), n being the callback's parameter and id the authenticated id of this connection; a chunk is reported at most once; every two-way relay copies client->remote and remote->client exactly once each; " +
 			"R5 the connection returned by Outbound.TCP reaches Close on every path, the client stream is closed on every exit of the request handler, and the stream wrapper's Close performs CancelRead and a graceful Close (never CancelWrite); " +
@@ -501,6 +501,20 @@ type c06loop struct {
 	writes  []ssa.CallInstruction
 	dstIdx  int
 	srcIdx  int
+	// split shape: the callback and the Write live in a chunk helper that the
+	// loop calls once per Read (`forward(dst, buf[:nr], log)`)
+	helpers []*c06helper
+	hcalls  map[ssa.Instruction]bool
+}
+
+// c06helper is a function the loop hands its callback parameter to and that
+// asks the callback and performs the Write on behalf of the loop.
+type c06helper struct {
+	fn      *ssa.Function
+	call    *ssa.Call      // the call site in the loop function
+	cb      *ssa.Parameter // the helper's callback parameter
+	cbCalls []*ssa.Call
+	writes  []ssa.CallInstruction
 }
 
 func c06paramIndex(fn *ssa.Function, v ssa.Value) int {
@@ -527,12 +541,14 @@ func c06isLogCallbackType(t types.Type) bool {
 
 func c06findLoops(c *Check, srvFns []*ssa.Function) []*c06loop {
 	var out []*c06loop
+	var partial []*c06loop
+	adopted := map[*ssa.Function]bool{}
 	for _, fn := range srvFns {
 		for i, prm := range fn.Params {
 			if !c06isLogCallbackType(prm.Type()) {
 				continue
 			}
-			l := &c06loop{fn: fn, cb: prm, cbIdx: i, dstIdx: -1, srcIdx: -1}
+			l := &c06loop{fn: fn, cb: prm, cbIdx: i, dstIdx: -1, srcIdx: -1, hcalls: map[ssa.Instruction]bool{}}
 			allInstrs(fn, func(in ssa.Instruction) {
 				if call, ok := in.(*ssa.Call); ok && !call.Call.IsInvoke() && resolve(call.Call.Value) == ssa.Value(prm) {
 					l.cbCalls = append(l.cbCalls, call)
@@ -551,17 +567,75 @@ func c06findLoops(c *Check, srvFns []*ssa.Function) []*c06loop {
 				}
 			})
 			if len(l.cbCalls) == 0 {
+				// split shape: the callback parameter is handed to a chunk helper
+				if len(l.reads) == 0 || len(l.writes) > 0 {
+					continue
+				}
+				allInstrs(fn, func(in ssa.Instruction) {
+					call, ok := in.(*ssa.Call)
+					if !ok {
+						return
+					}
+					g := staticCallee(call)
+					if g == nil || g == fn || len(g.Blocks) == 0 || !c.P.IsRepoFn(g) {
+						return
+					}
+					for j, a := range call.Call.Args {
+						if resolve(a) != ssa.Value(prm) || j >= len(g.Params) || !c06isLogCallbackType(g.Params[j].Type()) {
+							continue
+						}
+						h := &c06helper{fn: g, call: call, cb: g.Params[j]}
+						nReads := 0
+						allInstrs(g, func(x ssa.Instruction) {
+							if cc, ok := x.(*ssa.Call); ok && !cc.Call.IsInvoke() && resolve(cc.Call.Value) == ssa.Value(h.cb) {
+								h.cbCalls = append(h.cbCalls, cc)
+							}
+							if _, _, _, ok := c06ioCall(x, "Read"); ok {
+								nReads++
+							}
+							if ci, recv, _, ok := c06ioCall(x, "Write"); ok {
+								h.writes = append(h.writes, ci)
+								if k := c06paramIndex(g, recv); k >= 0 && k < len(call.Call.Args) {
+									if kk := c06paramIndex(fn, call.Call.Args[k]); kk >= 0 {
+										l.dstIdx = kk
+									}
+								}
+							}
+						})
+						if len(h.cbCalls) == 0 || len(h.writes) == 0 || nReads > 0 {
+							continue
+						}
+						l.helpers = append(l.helpers, h)
+						l.hcalls[call] = true
+						adopted[g] = true
+					}
+				})
+				if len(l.helpers) > 0 {
+					out = append(out, l)
+				}
 				continue
 			}
 			if len(l.reads) == 0 || len(l.writes) == 0 {
-				c.Undecided("C06.R1:"+fnName(fn)+":shape", "C06.R1 the logging copy loop reads, asks the callback and writes in one function", c.P.Pos(fn.Pos()),
-					"a function invokes a func(uint) bool callback parameter but does not contain both the Read and the Write: the copy loop is split across helpers, which this check does not follow")
+				partial = append(partial, l)
 				continue
 			}
 			out = append(out, l)
 		}
 	}
+	for _, l := range partial {
+		if adopted[l.fn] {
+			continue // a chunk helper of a loop: decided together with that loop
+		}
+		c.Undecided("C06.R1:"+fnName(l.fn)+":shape", "C06.R1 the logging copy loop reads, asks the callback and writes in one function (or in the loop plus one chunk helper)", c.P.Pos(l.fn.Pos()),
+			"a function invokes a func(uint) bool callback parameter but does not contain both the Read and the Write, and is not a chunk helper called by a reading loop: the copy loop is split in a way this check does not follow")
+	}
 	return out
+}
+
+type c06readInfo struct {
+	call ssa.CallInstruction
+	n    ssa.Value
+	buf  ssa.Value
 }
 
 func c06checkLoop(c *Check, l *c06loop) {
@@ -573,12 +647,22 @@ func c06checkLoop(c *Check, l *c06loop) {
 	const r2 = "C06.R2 the Write operand is buf[0:nr] of the Read on the same buf in that iteration; the buffer is not stored into between Read and Write; a chunk with nr>0 is vetoed or written before the next Read / return; a chunk is written at most once"
 	const r3 = "C06.R3 a chunk is reported to the log callback at most once per Read"
 
+	// (a call of a chunk helper both asks the callback and writes)
 	isCb := func(in ssa.Instruction) bool {
+		if l.hcalls[in] {
+			return true
+		}
 		call, ok := in.(*ssa.Call)
 		return ok && !call.Call.IsInvoke() && resolve(call.Call.Value) == ssa.Value(l.cb)
 	}
 	isRead := func(in ssa.Instruction) bool { _, _, _, ok := c06ioCall(in, "Read"); return ok }
-	isWrite := func(in ssa.Instruction) bool { _, _, _, ok := c06ioCall(in, "Write"); return ok }
+	isWrite := func(in ssa.Instruction) bool {
+		if l.hcalls[in] {
+			return true
+		}
+		_, _, _, ok := c06ioCall(in, "Write")
+		return ok
+	}
 	// approve(n, only): true-edge of a callback call (only != nil: of that call) whose argument is n (n == nil: any)
 	approve := func(n ssa.Value, only *ssa.Call) EdgePred {
 		return func(cond ssa.Value, pol bool) bool {
@@ -608,11 +692,7 @@ func c06checkLoop(c *Check, l *c06loop) {
 	}
 	seq := map[string]int{}
 
-	type readInfo struct {
-		call ssa.CallInstruction
-		n    ssa.Value
-		buf  ssa.Value
-	}
+	type readInfo = c06readInfo
 	var reads []readInfo
 	for _, r := range l.reads {
 		_, _, buf, _ := c06ioCall(r, "Read")
@@ -693,6 +773,11 @@ func c06checkLoop(c *Check, l *c06loop) {
 			}
 		}
 		c.Req(lost == "", "C06.R2:"+name+":"+kc+":approved-is-written", r2, p.InstrPos(cb), "after the log callback approved a chunk a path reaches "+lost+" (next Read / return) without writing it")
+	}
+
+	// ---- split shape: the chunk helper(s)
+	for _, h := range l.helpers {
+		c06checkHelper(c, l, h, reads, isRead, isWrite, func(k string) string { return ord(seq, k) })
 	}
 
 	// ---- per Read: nothing dropped (R2), buffer untouched (R2)
@@ -793,6 +878,9 @@ func c06checkLoop(c *Check, l *c06loop) {
 				owners[resolve(u.X)] = true
 			}
 			usesBuf := func(in ssa.Instruction) bool {
+				if l.hcalls[in] {
+					return true
+				}
 				if _, _, b, ok := c06ioCall(in, "Read"); ok && c06base(b) == base {
 					return true
 				}
@@ -828,8 +916,13 @@ func c06checkLoop(c *Check, l *c06loop) {
 			c.OK(key, r2, p.InstrPos(ri.call))
 		}
 	}
-	c.Floor("C06.R1:"+name+":writes", len(l.writes), 1)
-	c.Floor("C06.R1:"+name+":callback-calls", len(l.cbCalls), 1)
+	nW, nC := len(l.writes), len(l.cbCalls)
+	for _, h := range l.helpers {
+		nW += len(h.writes)
+		nC += len(h.cbCalls)
+	}
+	c.Floor("C06.R1:"+name+":writes", nW, 1)
+	c.Floor("C06.R1:"+name+":callback-calls", nC, 1)
 	c.Floor("C06.R2:"+name+":reads", len(l.reads), 1)
 }
 
@@ -2011,4 +2104,333 @@ func c06asMakeInterface(v ssa.Value) (*ssa.MakeInterface, bool) {
 		}
 	}
 	return nil, false
+}
+
+// ---------------------------------------------------------------------------
+// split shape of the logging copy loop: `for { nr := src.Read(buf); if nr > 0 { if err := forward(dst, buf[:nr], log); err != nil { return err } } … }`
+// The helper is decided on its own CFG (approval before the Write, veto writes
+// nothing, reported amount, written once); the loop function is decided with
+// the helper call standing for "callback + Write", plus the link between the
+// two: the helper's chunk is buf[0:nr] of the Read, and after a veto the helper
+// hands back a signal behind which the loop neither reads nor forwards again.
+func c06checkHelper(c *Check, l *c06loop, h *c06helper, reads []c06readInfo, isRead, isWriteF func(ssa.Instruction) bool, ord func(string) string) {
+	p := c.P
+	fn, g := l.fn, h.fn
+	name := fnName(fn)
+	c.Saw(fnName(g))
+	const r1 = "C06.R1 in the logging copy loop every Write is reachable from the Read that produced its bytes only across the true-edge of the log callback invoked with that Read's count; a path that left the callback without its true-edge neither writes nor continues the loop"
+	const r2 = "C06.R2 the Write operand is buf[0:nr] of the Read on the same buf in that iteration; the buffer is not stored into between Read and Write; a chunk with nr>0 is vetoed or written before the next Read / return; a chunk is written at most once"
+	const r3 = "C06.R3 a chunk is reported to the log callback at most once per Read"
+
+	args := h.call.Call.Args
+	isCbG := func(in ssa.Instruction) bool {
+		call, ok := in.(*ssa.Call)
+		return ok && !call.Call.IsInvoke() && resolve(call.Call.Value) == ssa.Value(h.cb)
+	}
+	isWriteG := func(in ssa.Instruction) bool { _, _, _, ok := c06ioCall(in, "Write"); return ok }
+	argOf := func(prm *ssa.Parameter) ssa.Value {
+		for i, q := range g.Params {
+			if q == prm && i < len(args) {
+				return args[i]
+			}
+		}
+		return nil
+	}
+	lowZero := func(sl *ssa.Slice) bool { return sl.Low == nil || isConstInt(sl.Low, 0) }
+	// chunk parameters: []byte parameters bound to buf[0:nr] of a Read
+	chunkOf := map[*ssa.Parameter]*c06readInfo{}
+	for i, q := range g.Params {
+		if i >= len(args) || !c06isByteSlice(q.Type()) {
+			continue
+		}
+		sl, ok := resolve(args[i]).(*ssa.Slice)
+		if !ok || !lowZero(sl) || sl.Max != nil || sl.High == nil {
+			continue
+		}
+		for k := range reads {
+			ri := &reads[k]
+			if ri.n != nil && resolve(sl.High) == ri.n && c06base(sl.X) == c06base(ri.buf) {
+				chunkOf[q] = ri
+			}
+		}
+	}
+	// amountOf: the Read whose count a value of the helper stands for:
+	// len(chunk), or an integer parameter bound to nr
+	amountOf := func(v ssa.Value) *c06readInfo {
+		v = c06conv(v)
+		if call, ok := v.(*ssa.Call); ok && isBuiltinCall(call, "len") && len(call.Call.Args) == 1 {
+			if prm, ok := resolve(call.Call.Args[0]).(*ssa.Parameter); ok {
+				return chunkOf[prm]
+			}
+			return nil
+		}
+		if prm, ok := v.(*ssa.Parameter); ok && prm.Parent() == g {
+			if a := argOf(prm); a != nil {
+				for k := range reads {
+					if reads[k].n != nil && c06conv(a) == reads[k].n {
+						return &reads[k]
+					}
+				}
+			}
+		}
+		return nil
+	}
+	approve := func(ri *c06readInfo, only *ssa.Call) EdgePred {
+		return func(cond ssa.Value, pol bool) bool {
+			v, q := c06norm(cond, pol)
+			if !q {
+				return false
+			}
+			call, ok := resolve(v).(*ssa.Call)
+			if !ok || !isCbG(call) {
+				return false
+			}
+			if only != nil && call != only {
+				return false
+			}
+			if ri != nil && (len(call.Call.Args) != 1 || amountOf(call.Call.Args[0]) != ri) {
+				return false
+			}
+			return true
+		}
+	}
+
+	// ---- the helper's result that tells the loop to go on
+	sigIdx, sigBool := -1, false
+	res := g.Signature.Results()
+	for i := 0; i < res.Len(); i++ {
+		t := res.At(i).Type()
+		if types.Identical(t, types.Universe.Lookup("error").Type()) {
+			sigIdx, sigBool = i, false
+		} else if b, ok := t.Underlying().(*types.Basic); ok && b.Kind() == types.Bool && sigIdx < 0 {
+			sigIdx, sigBool = i, true
+		}
+	}
+	var hres ssa.Value
+	if sigIdx >= 0 {
+		if res.Len() == 1 {
+			hres = h.call
+		} else {
+			hres = extractOf(h.call, sigIdx)
+		}
+	}
+	goOn := func(cond ssa.Value, pol bool) bool { // the edge on which the helper reported "forwarded"
+		if hres == nil {
+			return false
+		}
+		if sigBool {
+			v, q := c06norm(cond, pol)
+			return q && resolve(v) == hres
+		}
+		x, isNil, ok := nilTest(cond, pol)
+		return ok && isNil && resolve(x) == hres
+	}
+
+	// ---- per Write of the helper
+	for _, w := range h.writes {
+		_, _, wbuf, _ := c06ioCall(w, "Write")
+		kw := ord("Write")
+		var match *c06readInfo
+		wv := resolve(wbuf)
+		if sl, ok := wv.(*ssa.Slice); ok && lowZero(sl) && sl.Max == nil {
+			if sl.High == nil {
+				wv = resolve(sl.X)
+			} else if prm, ok := c06base(sl.X).(*ssa.Parameter); ok {
+				if ri := amountOf(sl.High); ri != nil {
+					if chunkOf[prm] == ri {
+						match = ri
+					} else if a := argOf(prm); a != nil && c06base(a) == c06base(ri.buf) {
+						match = ri
+					}
+				}
+			}
+		}
+		if prm, ok := wv.(*ssa.Parameter); ok && match == nil {
+			match = chunkOf[prm]
+		}
+		c.Req(match != nil, "C06.R2:"+name+":"+kw+":data", r2, p.InstrPos(w), "the operand of the Write in the chunk helper is not the chunk buf[0:nr] handed over by the loop, with nr the count returned by the Read into the same buf (bytes other than the ones just read are forwarded, or not all of them)")
+		c.Req(guardedBy(w, approve(match, nil)), "C06.R1:"+name+":"+kw+":approved", r1, p.InstrPos(w), "a path leads from the entry of the chunk helper to this Write without crossing the true-edge of log(<the chunk's length>) (a chunk is forwarded before / without the logger's approval)")
+		again := c06has(reachFrom(g, w, nil, nil), isWriteG)
+		c.Req(again == nil, "C06.R2:"+name+":"+kw+":once", r2, p.InstrPos(w), "after this Write another Write is reachable in the chunk helper (a chunk may be forwarded twice)")
+	}
+	// the loop hands every chunk over at most once
+	{
+		kh := ord("forward")
+		again := c06has(reachFrom(fn, h.call, isRead, nil), isWriteF)
+		c.Req(again == nil, "C06.R2:"+name+":"+kh+":once", r2, p.InstrPos(h.call), "after the chunk was handed to the chunk helper another forwarding call / Write is reachable before the next Read (a chunk may be forwarded or counted twice)")
+	}
+
+	// ---- per callback call of the helper
+	for _, cb := range h.cbCalls {
+		kc := ord("log")
+		refused := reachFrom(g, cb, nil, approve(nil, cb))
+		bad, und := "", ""
+		if in := c06has(refused, isWriteG); in != nil {
+			bad = "a Write at " + p.InstrPos(in) + " is reachable from the log callback without crossing its true-edge (a vetoed or unjudged chunk is forwarded)"
+		} else if sigIdx < 0 {
+			und = "the chunk helper has no error / bool result; how a veto ends the loop is not analysed"
+		} else {
+			// the veto must come back as a signal behind which the loop stops
+			for _, in := range refused {
+				r, ok := in.(*ssa.Return)
+				if !ok {
+					continue
+				}
+				rs := retResults(r)
+				if sigIdx >= len(rs) || rs[sigIdx] == nil {
+					und = "the result returned at " + p.InstrPos(r) + " after a veto cannot be determined"
+					continue
+				}
+				for _, o := range c06origins(rs[sigIdx]) {
+					switch {
+					case sigBool && isConstBool(o, false):
+					case sigBool && isConstBool(o, true):
+						bad = "the chunk helper returns true at " + p.InstrPos(r) + " after the log callback refused (the veto does not end this direction)"
+					case sigBool:
+						und = "the verdict returned at " + p.InstrPos(r) + " after a veto is computed"
+					case isNilConst(o):
+						bad = "the chunk helper returns a nil error at " + p.InstrPos(r) + " after the log callback refused (the veto does not end this direction)"
+					case c06nonNilErr(o):
+					default:
+						und = "whether the error returned at " + p.InstrPos(r) + " after a veto is non-nil is not analysed"
+					}
+				}
+			}
+			if bad == "" {
+				stopped := reachFrom(fn, h.call, nil, goOn)
+				if in := c06has(stopped, isWriteF); in != nil {
+					bad = "in the loop a Write / forwarding call at " + p.InstrPos(in) + " is reachable from the chunk helper's call without crossing the edge on which it reported success (a vetoed chunk is forwarded)"
+				} else if in := c06has(stopped, isRead); in != nil {
+					bad = "the loop reads again at " + p.InstrPos(in) + " without testing the chunk helper's result (the veto does not end this direction)"
+				}
+			}
+		}
+		key := "C06.R1:" + name + ":" + kc + ":veto-forwards-nothing"
+		switch {
+		case bad != "":
+			c.Bad(key, r1, p.InstrPos(cb), bad)
+		case und != "":
+			c.Undecided(key, r1, p.InstrPos(cb), und)
+		default:
+			c.OK(key, r1, p.InstrPos(cb))
+		}
+		again := c06has(reachFrom(g, cb, nil, nil), isCbG)
+		c.Req(again == nil, "C06.R3:"+name+":"+kc+":once", r3, p.InstrPos(cb), "after this report another log callback call is reachable in the chunk helper (a chunk may be counted twice)")
+		c.Req(len(cb.Call.Args) == 1 && amountOf(cb.Call.Args[0]) != nil, "C06.R3:"+name+":"+kc+":amount", r3, p.InstrPos(cb), "the amount reported to the log callback is not the length of the chunk handed over by the loop (the byte count returned by the Read)")
+		lost := ""
+		for _, tb := range c06edgeTargets(g, approve(nil, cb)) {
+			reached := c06walk(tb, isWriteG, nil)
+			if in := c06has(reached, c06isReturn); in != nil {
+				lost = p.InstrPos(in)
+			}
+		}
+		c.Req(lost == "", "C06.R2:"+name+":"+kc+":approved-is-written", r2, p.InstrPos(cb), "after the log callback approved a chunk a path reaches the return at "+lost+" without writing it")
+	}
+	// every chunk handed over is judged: no exit of the helper before the callback
+	{
+		var ex []ssa.Instruction
+		for _, in := range exitsReachableAvoiding(g, nil, isCbG) {
+			if g.Recover == nil || in.Block() != g.Recover {
+				ex = append(ex, in)
+			}
+		}
+		where := ""
+		if len(ex) > 0 {
+			where = p.InstrPos(ex[0])
+		}
+		c.Req(len(ex) == 0, "C06.R2:"+name+":"+fnName(g)+":no-drop", r2, p.Pos(g.Pos()), "the chunk helper can return at "+where+" without handing the chunk to the log callback: bytes read are dropped")
+	}
+	// the chunk is not modified inside the helper before it is written
+	{
+		bad, und := "", ""
+		derived := map[ssa.Value]bool{}
+		var work []ssa.Value
+		add := func(v ssa.Value) {
+			if v != nil && !derived[v] {
+				derived[v] = true
+				work = append(work, v)
+			}
+		}
+		for _, q := range g.Params {
+			if c06isByteSlice(q.Type()) {
+				add(q)
+			}
+		}
+		for len(work) > 0 {
+			v := work[len(work)-1]
+			work = work[:len(work)-1]
+			refs := v.Referrers()
+			if refs == nil {
+				continue
+			}
+			for _, u := range *refs {
+				switch x := u.(type) {
+				case *ssa.Slice:
+					if x.X == v {
+						add(x)
+					}
+				case *ssa.Phi:
+					add(x)
+				case *ssa.IndexAddr:
+					for _, uu := range *x.Referrers() {
+						if st, ok := uu.(*ssa.Store); ok && st.Addr == ssa.Value(x) {
+							bad = "a store into the chunk at " + p.InstrPos(st) + " in the chunk helper"
+						} else if _, isLoad := uu.(*ssa.UnOp); !isLoad {
+							if _, isDbg := uu.(*ssa.DebugRef); !isDbg {
+								und = "an element address of the chunk is used at " + p.InstrPos(uu)
+							}
+						}
+					}
+				case ssa.CallInstruction:
+					if isWriteG(x) || isBuiltinCall(x, "len") || isBuiltinCall(x, "cap") {
+						continue
+					}
+					if isBuiltinCall(x, "copy") {
+						if derived[resolve(x.Common().Args[0])] || x.Common().Args[0] == v {
+							bad = "copy() into the chunk at " + p.InstrPos(x) + " in the chunk helper"
+						}
+						continue
+					}
+					und = "the chunk is passed to a call at " + p.InstrPos(x) + " in the chunk helper"
+				case *ssa.Store:
+					if x.Val == v {
+						und = "the chunk is stored at " + p.InstrPos(x) + " in the chunk helper"
+					}
+				case *ssa.DebugRef, *ssa.UnOp, *ssa.BinOp:
+				case *ssa.MakeInterface, *ssa.ChangeType, *ssa.Convert:
+					if in, ok := u.(ssa.Instruction); ok {
+						und = "the chunk is converted at " + p.InstrPos(in) + " in the chunk helper"
+					}
+				}
+			}
+		}
+		key := "C06.R2:" + name + ":" + fnName(g) + ":buffer-untouched"
+		switch {
+		case bad != "":
+			c.Bad(key, r2, p.Pos(g.Pos()), bad+" (the forwarded bytes are altered)")
+		case und != "":
+			c.Undecided(key, r2, p.Pos(g.Pos()), und+"; whether it is modified there is not analysed")
+		default:
+			c.OK(key, r2, p.Pos(g.Pos()))
+		}
+	}
+}
+
+// c06nonNilErr: an error value that is not nil by construction: a package-level
+// sentinel (errors.New at package initialisation is assumed), a concrete value
+// boxed into the interface, or the result of errors.New / fmt.Errorf / errors.Join-free constructors.
+func c06nonNilErr(v ssa.Value) bool {
+	v = resolve(v)
+	switch x := v.(type) {
+	case *ssa.UnOp:
+		if x.Op == token.MUL {
+			_, isGlobal := x.X.(*ssa.Global)
+			return isGlobal
+		}
+	case *ssa.MakeInterface:
+		return true
+	case *ssa.Call:
+		return calleeIs(x, "errors", "New") || calleeIs(x, "fmt", "Errorf")
+	}
+	return false
 }
